@@ -47,17 +47,18 @@ def cases(draw):
     pad = draw(st.sampled_from(['', '', '', ' ', '  ', '\t', ' \r']))
     lead = draw(st.sampled_from(['', '', '', ' ', '\t']))
     spell = [draw(st.sampled_from(['0x', '0x', '0x', 'echo', 'reverse', 'bech32dec'])) for _ in stack]
-    return dict(script=script, stack=stack, removed=removed, mode=mode, opt=opt, dbg=dbg, envs=envs, pad=pad, lead=lead, spell=spell)
+    aslines = draw(st.sampled_from([None, None, '\n', ' \n', '\r\n', ' ']))
+    return dict(script=script, stack=stack, removed=removed, mode=mode, opt=opt, dbg=dbg, envs=envs, pad=pad, lead=lead, spell=spell, aslines=aslines)
 
 
 def case_json(c):
     return dict(script=c['script'].hex(), stack=[x.hex() for x in c['stack']], removed=c['removed'], mode=c['mode'], opt=c['opt'], dbg=c['dbg'], envs=[list(e) for e in c['envs']],
-                pad=c.get('pad', ''), lead=c.get('lead', ''), spell=c.get('spell'))
+                pad=c.get('pad', ''), lead=c.get('lead', ''), spell=c.get('spell'), aslines=c.get('aslines'))
 
 
 def case_from_json(j):
     return dict(script=bytes.fromhex(j['script']), stack=[bytes.fromhex(x) for x in j['stack']], removed=j['removed'], mode=j['mode'], opt=j['opt'], dbg=j['dbg'], envs=[tuple(e) for e in j['envs']],
-                pad=j.get('pad', ''), lead=j.get('lead', ''), spell=j.get('spell'))
+                pad=j.get('pad', ''), lead=j.get('lead', ''), spell=j.get('spell'), aslines=j.get('aslines'))
 
 
 def spell_arg(x, how):
@@ -76,6 +77,26 @@ def invoke(c, mode=None, opt=None, variant='plain'):
     mode = mode or c['mode']
     opt = c['opt'] if opt is None else opt
     text = '0x' + c['script'].hex()
+    if c.get('aslines') and mode != 'argv':
+        # the same script as a bracketed token list with its tokens on separate lines (stdin carries the whole script, not its first line)
+        toks = []
+        pos = 0
+        for e in R.decode(c['script']):
+            if e is None:
+                toks = None
+                break
+            op, data, nxt = e
+            if data is None or op == 0:
+                toks.append('OP_x%02x' % op)
+            elif len(data) >= 5 and R.push_enc(data) == c['script'][pos:nxt]:
+                toks.append('0x' + data.hex())
+            else:
+                toks = None
+                break
+            pos = nxt
+        if toks:
+            sep = c['aslines']
+            text = '[' + sep[1:] + sep.join(toks) + sep + ']'
     args = []
     env = {}
     if opt == 1:
